@@ -49,8 +49,11 @@ class C10(Prop):
             n = rng.randint(1, 60); m = rng.randint(1, 12)
             P = V.rand_profile(rng, n, m)
             rule = rng.choice(V.RULES); k = rng.randint(1, m + 1)
-            yield self.mk("random", rule, rng.choice(["score", "scf", "swf"]), P, k, rng.random() < .5, tb=rng.choice(V.TBS),
-                          dtype=rng.choice(["int64", "int32", "float"]))
+            c = self.mk("random", rule, rng.choice(["score", "scf", "swf"]), P, k, rng.random() < .5, tb=rng.choice(V.TBS),
+                        dtype=rng.choice(["int64", "int32", "float"]))
+            if i % 4 == 0 and m >= 2:     # history: the same rule object scored a profile with FEWER alternatives first (k may exceed that number)
+                c["prelude"] = [dict(P=V.rand_profile(rng, rng.randint(1, 3), rng.randint(1, m - 1)))]; c["family"] = "random_history"
+            yield c
         # many alternatives (beyond the range of small integer types: per-voter points up to m - 1)
         for i in range(10 if tier == "quick" else 120):
             n = rng.randint(1, 3); m = rng.choice([129, 130, 200, 257, 300])
